@@ -28,7 +28,7 @@ import (
 
 type vkLimStep struct {
 	Proto string `json:"proto"`
-	Kind  string `json:"kind"` // noopt, opt, A, B, A+srv, B+srv, A+bad
+	Kind  string `json:"kind"` // noopt, opt, A, B, A+srv, B+srv, A+bad, A+srv|B, B|A+srv, A|B (two cookie options)
 }
 
 func (s vkLimStep) String() string { return s.Proto + ":" + s.Kind }
@@ -70,6 +70,17 @@ func vkLimQuery(id uint16, kind string, lastSrv map[string]string) []byte {
 			}
 		case "A+bad":
 			ck = vkLimCookieA + strings.Repeat("5c", 32)
+		case "A+srv|B", "B|A+srv", "A|B":
+			// TWO cookie options in one OPT: whichever of them a path goes by, every path must go by the same
+			a := vkLimCookieA
+			if s := lastSrv[vkLimCookieA]; s != "" && kind != "A|B" {
+				a = s
+			}
+			first, second := a, vkLimCookieB
+			if kind == "B|A+srv" {
+				first, second = vkLimCookieB, a
+			}
+			opt.Option = []dns.EDNS0{&dns.EDNS0_COOKIE{Code: dns.EDNS0COOKIE, Cookie: first}, &dns.EDNS0_COOKIE{Code: dns.EDNS0COOKIE, Cookie: second}}
 		}
 		if ck != "" {
 			opt.Option = []dns.EDNS0{&dns.EDNS0_COOKIE{Code: dns.EDNS0COOKIE, Cookie: ck}}
@@ -202,6 +213,18 @@ func TestVerifC05Limiter(t *testing.T) {
 		}
 	}
 	rec(nil)
+	// histories ending in a query with two cookie options (every shorter history in front of it)
+	base := append([][]vkLimStep{nil}, hists...)
+	for _, h := range base {
+		if len(h) >= depth {
+			continue
+		}
+		for _, proto := range []string{"udp", "tcp"} {
+			for _, k := range []string{"A+srv|B", "B|A+srv", "A|B"} {
+				hists = append(hists, append(append([]vkLimStep{}, h...), vkLimStep{proto, k}))
+			}
+		}
+	}
 	if c.Thorough() {
 		// depth 4 over the cookie-bearing steps only
 		var core []vkLimStep
